@@ -570,3 +570,286 @@ Proof.
 Qed.
 
 End WithOracle.
+
+Section WithOracle2.
+Variable cfg : oscfg.
+Variable oracle : nat -> answer.
+
+(* ------------------------------------------------------------------------------------- *)
+(* C18: mi_segment_try_purge                                                               *)
+(* ------------------------------------------------------------------------------------- *)
+(* now < purge_expire and not forced: nothing happens at all *)
+Lemma try_purge_not_expired o s now : (now < s_expire s)%Z -> segment_try_purge cfg oracle o s false now = (o, s).
+Proof.
+  intros H. unfold segment_try_purge.
+  destruct (negb (s_allow_purge s) || (s_expire s =? 0)%Z || commit_mask_is_empty (s_purge s)); [reflexivity|].
+  apply Z.ltb_lt in H. rewrite H. reflexivity.
+Qed.
+
+(* nothing scheduled (or purging not allowed): nothing happens *)
+Lemma try_purge_idle o s force now :
+  s_allow_purge s = false \/ s_expire s = 0%Z \/ s_purge s = 0 -> segment_try_purge cfg oracle o s force now = (o, s).
+Proof.
+  intros H. unfold segment_try_purge.
+  assert (E : negb (s_allow_purge s) || (s_expire s =? 0)%Z || commit_mask_is_empty (s_purge s) = true).
+  { destruct H as [H|[H|H]]; rewrite H; cbn; rewrite ?orb_true_r; reflexivity. }
+  rewrite E. reflexivity.
+Qed.
+
+(* forced, or the expiry has passed: exactly the runs of the purge mask are handed to _mi_os_purge, in order,
+   the purge mask becomes empty and the expiry is reset *)
+Lemma try_purge_expired o s force now :
+  seg_ok2 s -> is_huge s = false -> s_size s = MI_SEGMENT_SIZE -> s_allow_purge s = true ->
+  s_expire s <> 0%Z -> s_purge s <> 0 -> msub (s_purge s) (s_commit s) ->
+  force = true \/ (s_expire s <= now)%Z ->
+  let r := segment_try_purge cfg oracle o s force now in
+  calls (fst r) = calls o ++ flat_map (fun r => purge_sigs cfg (s_base s + fst r * CS) (snd r * CS) true) (mask_runs (s_purge s)) /\
+  s_purge (snd r) = 0 /\ s_expire (snd r) = 0%Z /\ msub (s_commit (snd r)) (s_commit s) /\ same_frame s (snd r).
+Proof.
+  intros Hok2 Hh Hsz Hap Hex Hpu Hsub Hwhen. cbv zeta. unfold segment_try_purge.
+  assert (E : negb (s_allow_purge s) || (s_expire s =? 0)%Z || commit_mask_is_empty (s_purge s) = false).
+  { rewrite Hap. cbn [negb orb]. apply orb_false_intro; [apply Z.eqb_neq; assumption|].
+    apply not_true_is_false. intros C. apply is_empty_spec in C. contradiction. }
+  rewrite E.
+  assert (E2 : negb force && (now <? s_expire s)%Z = false).
+  { destruct Hwhen as [->|H]; [reflexivity|]. apply andb_false_intro2. apply Z.ltb_ge. assumption. }
+  rewrite E2. rewrite purge_runs_unfold.
+  set (s0 := set_purge (set_expire s 0%Z) mask_empty).
+  assert (F0 : same_frame s s0) by (unfold s0; repeat split).
+  assert (Hok0 : seg_ok2 s0).
+  { destruct Hok2 as (A & B & C). split; [eapply same_frame_ok; eassumption|]. exact (conj B C). }
+  pose proof (fold_runs_frame cfg oracle (s_base s0) (mask_runs (s_purge s)) o s0) as (I1 & I2 & I3 & I4 & _).
+  split; [|split; [|split; [|split]]].
+  - change (s_base s) with (s_base s0).
+    apply (fold_runs_calls cfg oracle (mask_runs (s_purge s)) 0 o s0 Hok0).
+    + rewrite (same_frame_huge s s0 F0). assumption.
+    + exact Hap.
+    + apply mask_runs_sorted.
+    + intros r Hr. pose proof (mask_runs_bound _ r Hr) as [B1 B2]. split.
+      * change (s_size s0) with (s_size s). rewrite Hsz. unfold CS. rewrite COMMIT_SIZE_val, SEGSIZE_val. rewrite MASK_BITS_val in B2. lia.
+      * intros k Hk. change (s_commit s0) with (s_commit s). apply Hsub. exact (proj2 (mask_runs_sound _ r k Hr Hk)).
+  - apply I3. reflexivity.
+  - rewrite I2. reflexivity.
+  - exact I4.
+  - exact (same_frame_trans _ _ _ F0 I1).
+Qed.
+
+(* C18 delay_neg_never, segments *)
+Lemma try_purge_neg o s force now : (purge_delay cfg < 0)%Z -> fst (segment_try_purge cfg oracle o s force now) = o.
+Proof.
+  intros H. unfold segment_try_purge.
+  destruct (negb (s_allow_purge s) || (s_expire s =? 0)%Z || commit_mask_is_empty (s_purge s)); [reflexivity|].
+  destruct (negb force && (now <? s_expire s)%Z); [reflexivity|].
+  rewrite purge_runs_unfold.
+  exact (proj2 (proj2 (proj2 (proj2 (fold_runs_frame cfg oracle _ _ o _)))) H).
+Qed.
+
+Lemma try_purge_subset o s force now :
+  msub (s_purge s) (s_commit s) ->
+  msub (s_purge (snd (segment_try_purge cfg oracle o s force now))) (s_commit (snd (segment_try_purge cfg oracle o s force now))).
+Proof.
+  intros H. unfold segment_try_purge.
+  destruct (negb (s_allow_purge s) || (s_expire s =? 0)%Z || commit_mask_is_empty (s_purge s)); [exact H|].
+  destruct (negb force && (now <? s_expire s)%Z); [exact H|].
+  rewrite purge_runs_unfold.
+  pose proof (fold_runs_frame cfg oracle (s_base (set_purge (set_expire s 0%Z) mask_empty)) (mask_runs (s_purge s)) o
+                (set_purge (set_expire s 0%Z) mask_empty)) as (_ & _ & I3 & _ & _).
+  rewrite I3 by reflexivity. apply msub_0.
+Qed.
+
+(* ------------------------------------------------------------------------------------- *)
+(* C18: mi_segment_schedule_purge                                                          *)
+(* ------------------------------------------------------------------------------------- *)
+Lemma schedule_not_allowed o s p size now : s_allow_purge s = false -> segment_schedule_purge cfg oracle o s p size now = (o, s).
+Proof. intros H. unfold segment_schedule_purge. rewrite H. reflexivity. Qed.
+
+(* delay 0: purge at once *)
+Lemma schedule_delay0 o s p size now : s_allow_purge s = true -> purge_delay cfg = 0%Z ->
+  segment_schedule_purge cfg oracle o s p size now = segment_purge cfg oracle o s p size.
+Proof. intros H D. unfold segment_schedule_purge. rewrite H, D. reflexivity. Qed.
+
+(* the three expiry-update cases (and the fourth: an old expired mask is purged first) *)
+Lemma schedule_rules o s p size now st fu m :
+  s_allow_purge s = true -> purge_delay cfg <> 0%Z ->
+  segment_commit_mask s true p size = (st, fu, m) -> m <> 0 -> fu <> 0 ->
+  let s1 := set_purge s (N.lor (s_purge s) (N.land (s_commit s) m)) in
+  (s_expire s = 0%Z -> segment_schedule_purge cfg oracle o s p size now = (o, set_expire s1 (now + purge_delay cfg)%Z)) /\
+  (s_expire s <> 0%Z -> (now < s_expire s)%Z ->
+     segment_schedule_purge cfg oracle o s p size now = (o, set_expire s1 (s_expire s + purge_extend_delay cfg)%Z)) /\
+  (s_expire s <> 0%Z -> (s_expire s <= now)%Z -> (now < s_expire s + purge_extend_delay cfg)%Z ->
+     segment_schedule_purge cfg oracle o s p size now = (o, set_expire s1 (now + purge_extend_delay cfg)%Z)) /\
+  (s_expire s <> 0%Z -> (s_expire s + purge_extend_delay cfg <= now)%Z -> (s_expire s <= now)%Z ->
+     segment_schedule_purge cfg oracle o s p size now = segment_try_purge cfg oracle o s1 true now).
+Proof.
+  intros Hap Hd E Hm Hf. cbv zeta. unfold segment_schedule_purge. rewrite Hap, E. cbn [negb].
+  assert (D : (purge_delay cfg =? 0)%Z = false) by (apply Z.eqb_neq; assumption). rewrite D.
+  assert (M : commit_mask_is_empty m || (fu =? 0) = false).
+  { apply orb_false_intro; [apply not_true_is_false; intros C; apply is_empty_spec in C; contradiction|apply N.eqb_neq; assumption]. }
+  rewrite M. unfold commit_mask_create_intersect, commit_mask_set. cbn [s_expire set_purge].
+  repeat split.
+  - intros Z. rewrite Z. reflexivity.
+  - intros NZ L. apply Z.eqb_neq in NZ. rewrite NZ. assert (G : (s_expire s <=? now)%Z = false) by (apply Z.leb_gt; assumption). rewrite G. reflexivity.
+  - intros NZ L1 L2. apply Z.eqb_neq in NZ. rewrite NZ. apply Z.leb_le in L1. rewrite L1.
+    assert (G : (s_expire s + purge_extend_delay cfg <=? now)%Z = false) by (apply Z.leb_gt; assumption). rewrite G. reflexivity.
+  - intros NZ L1 L2. apply Z.eqb_neq in NZ. rewrite NZ. apply Z.leb_le in L1, L2. rewrite L1, L2. reflexivity.
+Qed.
+
+Lemma schedule_neg o s p size now : (purge_delay cfg < 0)%Z -> fst (segment_schedule_purge cfg oracle o s p size now) = o.
+Proof.
+  intros H. unfold segment_schedule_purge. destruct (s_allow_purge s); cbn [negb]; [|reflexivity].
+  destruct (purge_delay cfg =? 0)%Z; [apply segment_purge_neg; assumption|].
+  destruct (segment_commit_mask s true p size) as [[st fu] m].
+  destruct (commit_mask_is_empty m || (fu =? 0)); [reflexivity|]. cbn [s_expire set_purge].
+  destruct (s_expire s =? 0)%Z; [reflexivity|]. destruct (s_expire s <=? now)%Z; [|reflexivity].
+  destruct (s_expire s + purge_extend_delay cfg <=? now)%Z; [|reflexivity]. apply try_purge_neg. assumption.
+Qed.
+
+Lemma schedule_subset o s p size now :
+  msub (s_purge s) (s_commit s) ->
+  msub (s_purge (snd (segment_schedule_purge cfg oracle o s p size now))) (s_commit (snd (segment_schedule_purge cfg oracle o s p size now))).
+Proof.
+  intros H. unfold segment_schedule_purge. destruct (s_allow_purge s); cbn [negb]; [|exact H].
+  destruct (purge_delay cfg =? 0)%Z; [apply segment_purge_subset; exact H|].
+  destruct (segment_commit_mask s true p size) as [[st fu] m].
+  destruct (commit_mask_is_empty m || (fu =? 0)); [exact H|]. cbn [s_expire set_purge].
+  assert (H1 : msub (commit_mask_set (s_purge s) (commit_mask_create_intersect (s_commit s) m)) (s_commit s)).
+  { apply msub_lor_land. exact H. }
+  destruct (s_expire s =? 0)%Z; [exact H1|]. destruct (s_expire s <=? now)%Z; [|exact H1].
+  destruct (s_expire s + purge_extend_delay cfg <=? now)%Z; [|exact H1]. apply try_purge_subset. exact H1.
+Qed.
+
+(* ------------------------------------------------------------------------------------- *)
+(* C13: mi_segment_commit / mi_segment_ensure_committed                                    *)
+(* ------------------------------------------------------------------------------------- *)
+Lemma segment_commit_masks o s p size now :
+  let m := snd (segment_commit_mask s false p size) in
+  let r := segment_commit cfg oracle o s p size now in
+  (s_purge (snd (fst r)) = s_purge s /\ s_commit (snd (fst r)) = s_commit s) \/
+  (snd r = true /\ s_purge (snd (fst r)) = N.ldiff (s_purge s) m /\
+   (s_commit (snd (fst r)) = s_commit s \/ s_commit (snd (fst r)) = N.lor (s_commit s) m)).
+Proof.
+  cbv zeta. unfold segment_commit. destruct (segment_commit_mask s false p size) as [[st fu] m]. cbn [snd].
+  destruct (commit_mask_is_empty m || (fu =? 0)); [left; split; reflexivity|].
+  destruct (commit_mask_all_set (s_commit s) m); cbn [negb].
+  - right. cbn. destruct (commit_mask_any_set (s_purge s) m); cbn; auto.
+  - destruct (os_commit oracle o st fu) as [o1 ok]. destruct ok; cbn.
+    + right. destruct (commit_mask_any_set (s_purge s) m); cbn; auto.
+    + left. split; reflexivity.
+Qed.
+
+Lemma segment_commit_subset o s p size now :
+  msub (s_purge s) (s_commit s) ->
+  msub (s_purge (snd (fst (segment_commit cfg oracle o s p size now)))) (s_commit (snd (fst (segment_commit cfg oracle o s p size now)))).
+Proof.
+  intros H. destruct (segment_commit_masks o s p size now) as [[P C]|(_ & P & [C|C])]; cbv zeta in *; rewrite P, C.
+  - exact H.
+  - eapply msub_trans; [apply msub_ldiff_l|exact H].
+  - apply msub_lor_r. eapply msub_trans; [apply msub_ldiff_l|exact H].
+Qed.
+
+Lemma ensure_committed_subset o s p size now :
+  msub (s_purge s) (s_commit s) ->
+  msub (s_purge (snd (fst (segment_ensure_committed cfg oracle o s p size now))))
+       (s_commit (snd (fst (segment_ensure_committed cfg oracle o s p size now)))).
+Proof.
+  intros H. unfold segment_ensure_committed.
+  destruct (commit_mask_is_full (s_commit s) && commit_mask_is_empty (s_purge s)); [exact H|].
+  apply segment_commit_subset. exact H.
+Qed.
+
+(* commit bits are set only for memory that is accessible in the ghost kernel *)
+Definition mask_sound (o : os) (s : segment) : Prop :=
+  forall k a, N.testbit (s_commit s) k = true -> s_base s + k * CS <= a -> a < s_base s + (k + 1) * CS ->
+              accessible (os_k o) a = true.
+
+(* C13 allocate_clears_purge + commit_then_accessible: after a successful mi_segment_ensure_committed every
+   slice of the range is in the commit mask and not in the purge mask, and (if the commit mask was sound)
+   every byte of the range is accessible and the commit mask is still sound *)
+Lemma ensure_committed_spec o s p size now o' s' :
+  seg_ok2 s -> is_huge s = false -> 0 < size -> size <= MI_SEGMENT_SIZE ->
+  s_base s <= p -> p + size <= s_base s + s_size s ->
+  segment_ensure_committed cfg oracle o s p size now = (o', s', true) ->
+  (forall a, p <= a -> a < p + size ->
+     N.testbit (s_purge s') ((a - s_base s) / CS) = false /\ N.testbit (s_commit s') ((a - s_base s) / CS) = true) /\
+  (mask_sound o s -> mask_sound o' s' /\ forall a, p <= a -> a < p + size -> accessible (os_k o') a = true).
+Proof.
+  intros Hok2 Hh H0 Hs Hp Hps E.
+  pose proof Hok2 as (Hok & Hb0 & Hbm). pose proof Hok as (Hsz & Hbb & Hm1 & Hm2).
+  assert (Hidx : forall a, p <= a -> a < p + size -> (a - s_base s) / CS < MASK_BITS /\
+                  s_base s + (a - s_base s) / CS * CS <= a /\ a < s_base s + ((a - s_base s) / CS + 1) * CS).
+  { intros a A1 A2. unfold CS in *. rewrite COMMIT_SIZE_val, SEGSIZE_val, MASK_BITS_val in *. lia. }
+  unfold segment_ensure_committed in E.
+  destruct (commit_mask_is_full (s_commit s) && commit_mask_is_empty (s_purge s)) eqn:Short.
+  { injection E as <- <-. apply andb_prop in Short as [S1 S2].
+    unfold commit_mask_is_full in S1. apply N.eqb_eq in S1. apply is_empty_spec in S2.
+    assert (Hc : forall a, p <= a -> a < p + size -> N.testbit (s_commit s) ((a - s_base s) / CS) = true).
+    { intros a A1 A2. rewrite S1, full_bit. apply N.ltb_lt. apply Hidx; assumption. }
+    split.
+    - intros a A1 A2. split; [rewrite S2; apply N.bits_0|apply Hc; assumption].
+    - intros Hs0. split; [exact Hs0|]. intros a A1 A2. destruct (Hidx a A1 A2) as (_ & I2 & I3).
+      apply (Hs0 ((a - s_base s) / CS) a (Hc a A1 A2) I2 I3). }
+  unfold segment_commit in E.
+  destruct (segment_commit_mask s false p size) as [[st fu] m] eqn:M.
+  destruct (liberal_covers s p size st fu m Hok Hh H0 Hs Hp Hps M) as (Cov & L1 & L2 & L3 & i & c & -> & -> & Hc & Hic & Hbits).
+  assert (Hne : commit_mask_is_empty m = false).
+  { apply not_true_is_false. intros C. apply is_empty_spec in C.
+    assert (B : N.testbit m i = true) by (rewrite Hbits; apply andb_true_intro; split; [apply N.leb_le|apply N.ltb_lt]; lia).
+    rewrite C, N.bits_0 in B. discriminate. }
+  assert (Hf : (c * CS =? 0) = false) by (apply N.eqb_neq; unfold CS; rewrite COMMIT_SIZE_val; lia).
+  rewrite Hne, Hf in E. cbn [orb] in E.
+  assert (Hcs : (i + c) * CS <= s_size s).
+  { unfold CS in *. rewrite COMMIT_SIZE_val, SEGSIZE_val in *. lia. }
+  destruct (commit_mask_all_set (s_commit s) m) eqn:All; cbn [negb] in E.
+  - (* already committed: no OS call *)
+    apply all_set_msub in All.
+    assert (E' : o' = o /\ s_commit s' = s_commit s /\ s_purge s' = N.ldiff (s_purge s) m).
+    { destruct (commit_mask_any_set (s_purge s) m); injection E as <- <-; cbn; auto. }
+    destruct E' as (-> & C' & P'). split.
+    + intros a A1 A2. rewrite P', C', N.ldiff_spec, (Cov a A1 A2). split; [apply andb_false_r|apply All; apply Cov; assumption].
+    + intros Hs0. split.
+      * intros k a K. rewrite C' in K. replace (s_base s') with (s_base s). apply Hs0; assumption.
+        destruct (commit_mask_any_set (s_purge s) m); injection E as <-; reflexivity.
+      * intros a A1 A2. destruct (Hidx a A1 A2) as (_ & I2 & I3).
+        apply (Hs0 ((a - s_base s) / CS) a (All _ (Cov a A1 A2)) I2 I3).
+  - (* commit through the OS *)
+    destruct (os_commit oracle o (s_base s + i * CS) (c * CS)) as [o1 ok] eqn:OC.
+    destruct ok; [|discriminate E].
+    assert (E' : o' = o1 /\ s_base s' = s_base s /\ s_commit s' = N.lor (s_commit s) m /\ s_purge s' = N.ldiff (s_purge s) m).
+    { cbn in E. destruct (commit_mask_any_set (s_purge s) m); injection E as <- <-; cbn; auto. }
+    destruct E' as (-> & B' & C' & P').
+    destruct (os_commit_accessible oracle o _ _ o1 (run_area s i c Hok2 Hc Hcs) OC) as [Acc Keep].
+    split.
+    + intros a A1 A2. rewrite P', C', N.ldiff_spec, N.lor_spec, (Cov a A1 A2). split; [apply andb_false_r|apply orb_true_r].
+    + intros Hs0. split.
+      * intros k a K A1 A2. rewrite B' in A1, A2. rewrite C', N.lor_spec in K. apply orb_prop in K as [K|K].
+        { apply Keep. apply (Hs0 k a K A1 A2). }
+        { rewrite Hbits in K. apply andb_prop in K as [K1 K2]. apply N.leb_le in K1. apply N.ltb_lt in K2.
+          apply Acc; unfold CS in *; rewrite COMMIT_SIZE_val in *; lia. }
+      * intros a A1 A2. apply Acc; lia.
+Qed.
+
+(* C13 purge_only_scheduled: every system call issued by mi_segment_try_purge is on the slices of one run of the
+   purge mask, i.e. on slices that were scheduled (and not taken back by an allocation) *)
+Lemma try_purge_only_scheduled o s force now :
+  seg_ok2 s -> is_huge s = false -> s_size s = MI_SEGMENT_SIZE -> s_allow_purge s = true ->
+  s_expire s <> 0%Z -> s_purge s <> 0 -> msub (s_purge s) (s_commit s) ->
+  force = true \/ (s_expire s <= now)%Z ->
+  forall sg, In sg (calls (fst (segment_try_purge cfg oracle o s force now))) ->
+  In sg (calls o) \/
+  exists r, In r (mask_runs (s_purge s)) /\ snd (fst sg) = snd r * CS /\ snd (fst (fst sg)) = s_base s + fst r * CS /\
+            forall k, in_run r k -> N.testbit (s_purge s) k = true.
+Proof.
+  intros Hok2 Hh Hsz Hap Hex Hpu Hsub Hwhen sg Hin.
+  destruct (try_purge_expired o s force now Hok2 Hh Hsz Hap Hex Hpu Hsub Hwhen) as (C & _).
+  rewrite C in Hin. apply in_app_or in Hin. destruct Hin as [Hin|Hin]; [left; exact Hin|right].
+  apply in_flat_map in Hin. destruct Hin as (r & R1 & R2). exists r. split; [assumption|].
+  assert (G : snd (fst sg) = snd r * CS /\ snd (fst (fst sg)) = s_base s + fst r * CS).
+  { unfold purge_sigs in R2. destruct (purge_delay cfg <? 0)%Z; [destruct R2|].
+    destruct (purge_decommits cfg).
+    - destruct R2 as [<-|R2]; [cbn; auto|]. destruct (decommit_protects cfg); [|destruct R2]. destruct R2 as [<-|[]]. cbn. auto.
+    - destruct R2 as [<-|[]]. cbn. auto. }
+  destruct G as [G1 G2]. split; [assumption|]. split; [assumption|].
+  intros k Hk. exact (proj2 (mask_runs_sound _ r k R1 Hk)).
+Qed.
+
+End WithOracle2.
